@@ -1,4 +1,5 @@
 import Momo.Model.PoolAlloc
+import Momo.Model.PoolAllocFault
 import Momo.Model.Pool
 import Driver.Engine
 open Momo.PoolAlloc
@@ -12,12 +13,18 @@ open Momo.PoolAlloc
   model predicts every returned pointer and every call of the base allocator):
       anew tsize talign cbaddr | acopy p | adrop p | alloc p tsize talign n base… | dealloc p tsize talign n ptr
       | ledger
+      | allocfail p tsize talign n   (this `allocate(n)` threw bad_alloc: `FOp.allocFail`; on the pool path the model checks with
+                                      C09's pool that the request really reaches the base allocator)
+      | anewfail tsize talign        (the explicit constructor threw in allocate_shared: `FOp.newFail`)
   mode=cont (container level; which blocks a call allocated / freed and which buffers the pool obtained /
   returned are taken from the op line):
       newAlloc e tsize talign cb | newFrom e src | mutate e act… | copyAssign d c act… |
       copyConstruct d c tsize talign cb act… | moveConstruct d c | moveAssign d c act… | swap d c |
       splice d c id… | destroy e act…
       act = +id:tsize:talign:n:m1,m2,…   (allocation; `-` for no buffer)   |   -id:f1,f2,…   (deallocation)
+      calls in which an allocation threw (`FCOp`): newAllocFail e tsize talign | mutateF e fact… | copyAssignF d c fact… |
+      copyConstructF d c tsize talign cb fact… | copyConstructNewFail d c tsize talign (threw inside select_on_container_copy_construction)
+      fact = act | !tsize:talign:n   (this allocation threw bad_alloc)
 -/
 namespace Driver.PoolAlloc
 
@@ -91,6 +98,16 @@ def finish (s : St) (op : Op) (sizes : List (Nat × Nat)) (px : List (Nat × Poo
     (s', s!"{head}{poolStr sys' p} | {evs} | {ledgerStr s' sys' sizes}{note}")
 
 def dropSizes (sizes : List (Nat × Nat)) (ids : List Nat) : List (Nat × Nat) := sizes.filter (fun e => !ids.contains e.1)
+
+/-- finish a trace-mode operation of the fault layer: apply the abstract step `fstep`, report -/
+def ffinish (s : St) (op : FOp) (sizes : List (Nat × Nat)) (px : List (Nat × PoolX)) (head : String) (p : Nat)
+    (evs : String) (note : String := "") : St × String :=
+  let sys' := fstep s.sys op
+  match sys'.err with
+  | some e => ({ s with sys := sys', halted := true }, s!"ERR {errStr e}")
+  | none =>
+    let s' := { s with sys := sys', sizes := sizes, px := px }
+    (s', s!"{head}{poolStr sys' p} | {evs} | {ledgerStr s' sys' sizes}{note}")
 
 def traceStep (s : St) : List String → St × String
   | ["anew", tsize, talign, cbaddr] =>
@@ -178,6 +195,39 @@ def traceStep (s : St) : List String → St × String
       else
         finish s (.dealloc p cls n id []) (dropSizes s.sizes [id]) s.px "ok " p s!"F{id}:{n * nat! tsize}"
     | _, _ => finish s (.dealloc p cls n id []) s.sizes s.px "ok " p "-"
+  | ["anewfail", _, _] =>
+    let sys' := fstep s.sys .newFail
+    ({ s with sys := sys' }, s!"E:bad_alloc | - | {ledgerStr s sys' s.sizes}")
+  | ["allocfail", ps, tsize, talign, ns] =>
+    let p := nat! ps
+    let n := nat! ns
+    let cls := clsOf s (nat! tsize) (nat! talign)
+    match livePool s.sys p, getPx s p with
+    | some st, some x =>
+      if n == 1 && (cls == st.params || st.allocCount == 0) then
+        -- pool path: line 119 may have replaced the idle pool before `MemPool::Allocate` threw
+        let reparam := cls != st.params
+        let pre : Option (PoolX × List Momo.Pool.Ev) :=
+          if reparam then
+            match Momo.Pool.destroy x.P x.pool with
+            | .ok _ _ evs => some (⟨mkParams s cls, Momo.Pool.Pool.empty⟩, evs)
+            | _ => none
+          else some (x, [])
+        match pre with
+        | none => ({ s with halted := true }, "STUCK ~MemPool of the replaced pool")
+        | some (x1, evs0) =>
+          -- C09's pool with a base allocator that throws: the request must really reach the base allocator
+          match Momo.Pool.allocate x1.P x1.pool (fun _ => none) with
+          | .badAlloc pool' evs1 =>
+            let fr := freesOf s evs0
+            let note := if !reparam || sameSet fr (heldOf s.sys p) then "" else " HELD-MISMATCH"
+            let s1 := setPx s p ⟨x1.P, pool'⟩
+            ffinish s (.allocFail p cls n) (dropSizes s.sizes fr) s1.px "E:bad_alloc " p (evStr s (evs0 ++ evs1)) note
+          | .ok _ _ _ => ({ s with halted := true }, "MODEL: this allocate is served without the base allocator, it cannot throw")
+          | .stuck w => ({ s with halted := true }, s!"STUCK {w}")
+      else
+        ffinish s (.allocFail p cls n) s.sizes s.px "E:bad_alloc " p "-"
+    | _, _ => ffinish s (.allocFail p cls n) s.sizes s.px "" p "-"
   | ["ledger"] => (s, ledgerStr s s.sys s.sizes ++ " blocks=" ++ toString s.sys.blocks.length)
   | _ => (s, "bad-op")
 
@@ -197,6 +247,15 @@ def parseAct (s : St) (t : String) : Option Act :=
   else none
 
 def parseActs (s : St) (ts : List String) : Option (List Act) := ts.mapM (parseAct s)
+
+def parseFAct (s : St) (t : String) : Option FAct :=
+  if t.startsWith "!" then
+    match (t.drop 1).toString.splitOn ":" with
+    | [tsize, talign, n] => some (.allocFail (clsOf s (nat! tsize) (nat! talign)) (nat! n))
+    | _ => none
+  else (parseAct s t).map .ok
+
+def parseFActs (s : St) (ts : List String) : Option (List FAct) := ts.mapM (parseFAct s)
 
 def insertSorted (x : Ent) : List Ent → List Ent
   | [] => [x]
@@ -220,6 +279,10 @@ def contStep (s : St) (toks : List String) : St × String :=
     match op with
     | some op => contFinish s (cstep s.cs op)
     | none => (s, "bad-op")
+  let goF (op : Option FCOp) : St × String :=
+    match op with
+    | some op => contFinish s (fcstep s.cs op)
+    | none => (s, "bad-op")
   match toks with
   | ["newAlloc", e, tsize, talign, cb] => go (some (.newAlloc (nat! e) (clsOf s (nat! tsize) (nat! talign)) (nat! cb)))
   | ["newFrom", e, src] => go (some (.newFrom (nat! e) (nat! src)))
@@ -232,6 +295,13 @@ def contStep (s : St) (toks : List String) : St × String :=
   | ["swap", d, c] => go (some (.swap (nat! d) (nat! c)))
   | "splice" :: d :: c :: ids => go (some (.splice (nat! d) (nat! c) (ids.map nat!)))
   | "destroy" :: e :: acts => go ((parseActs s acts).map (.destroy (nat! e)))
+  | ["newAllocFail", e, tsize, talign] => goF (some (.newAllocFail (nat! e) (clsOf s (nat! tsize) (nat! talign))))
+  | "mutateF" :: e :: acts => goF ((parseFActs s acts).map (.mutateF (nat! e)))
+  | "copyAssignF" :: d :: c :: acts => goF ((parseFActs s acts).map (.copyAssignF (nat! d) (nat! c)))
+  | "copyConstructF" :: d :: c :: tsize :: talign :: cb :: acts =>
+      goF ((parseFActs s acts).map (.copyConstructF (nat! d) (nat! c) (clsOf s (nat! tsize) (nat! talign)) (nat! cb)))
+  | ["copyConstructNewFail", d, c, tsize, talign] =>
+      goF (some (.copyConstructNewFail (nat! d) (nat! c) (clsOf s (nat! tsize) (nat! talign))))
   | _ => (s, "bad-op")
 
 def step (s : St) (toks : List String) : St × String :=
